@@ -1,1 +1,167 @@
-From QV Require Import C18.ZiInst.
+(* C18/Props.v : the property theorems of C18 (statements; proofs are in Proofs*.v).
+   Generic statements hold over every commutative semiring T with an additive, multiplicative
+   involution cj (C with complex conjugation; the Gaussian integers of the correspondence runs). *)
+From Coq Require Import List Bool Arith Lia Ring ZArith Reals Permutation.
+From Coquelicot Require Import Coquelicot.
+From QV Require Import Base.Mat Base.Zi C17.Alg C17.Model C17.ZiInst
+  C18.Model C18.Spec C18.ZiInst C18.ProofsBits C18.ProofsPtrace C18.ProofsAlg C18.ProofsReal C18.ProofsSeed.
+Import ListNotations.
+Close Scope R_scope.
+
+Section Generic.
+  Context {T : Type} (K : ops T) (cj : T -> T).
+  Variable SR : semi_ring_theory (zero K) (one K) (add K) (mul K) (@eq T).
+  Hypothesis cj0 : cj (zero K) = zero K.
+  Hypothesis cj_add : forall a b, cj (add K a b) = add K (cj a) (cj b).
+  Hypothesis cj_mul : forall a b, cj (mul K a b) = mul K (cj a) (cj b).
+  Hypothesis cj_cj : forall a, cj (cj a) = a.
+
+  (* partial_trace, density-matrix route (transpose by sorted(traced)+kept, reshape, einsum "abac->bc")
+     = sum_k (I (x) <k|) rho (I (x) |k>), for every n and every duplicate-free in-range list of
+     traced qubits IN ANY ORDER.  The real code rejects nothing here; out-of-range or repeated
+     qubits make numpy raise. *)
+  Theorem ptrace_ok : forall n S rho, NoDup S -> (forall q, In q S -> q < n) ->
+    ptrace_dm K n S rho = ptrace_spec K n S (fun x y => mget K rho x y).
+  Proof. intros. now apply (ptrace_dm_ok K SR). Qed.
+
+  (* state-vector route: tensordot(psi, conj psi, axes=[traced, traced]) = partial trace of |psi><psi| *)
+  Theorem ptrace_statevector_ok : forall n S psi, NoDup S -> (forall q, In q S -> q < n) ->
+    ptrace_sv K cj n S psi
+    = ptrace_spec K n S (fun x y => mul K (vget K psi x) (cj (vget K psi y))).
+  Proof. intros. now apply (ptrace_sv_ok K cj SR). Qed.
+
+  (* the result does not depend on the order in which the traced qubits are listed *)
+  Theorem ptrace_order_irrelevant : forall n S S' rho psi, NoDup S -> (forall q, In q S -> q < n) ->
+    Permutation S' S ->
+    ptrace_dm K n S' rho = ptrace_dm K n S rho /\ ptrace_sv K cj n S' psi = ptrace_sv K cj n S psi.
+  Proof.
+    intros n S S' rho psi Hnd Hlt Hp.
+    assert (Hnd' : NoDup S') by (apply (Permutation_NoDup (Permutation_sym Hp) Hnd)).
+    assert (Hlt' : forall q, In q S' -> q < n) by (intros q Hq; apply Hlt; apply (Permutation_in _ Hp Hq)).
+    rewrite (ptrace_dm_ok K SR n S' rho Hnd' Hlt'), (ptrace_dm_ok K SR n S rho Hnd Hlt).
+    rewrite (ptrace_sv_ok K cj SR n S' psi Hnd' Hlt'), (ptrace_sv_ok K cj SR n S psi Hnd Hlt).
+    split; now apply ptrace_spec_perm.
+  Qed.
+
+  (* partial_transpose: entry formula (definitional) *)
+  Theorem ptranspose_ok : forall n S rho,
+    ptranspose K n S rho
+    = map (fun r => map (fun c => ptranspose_entry K S rho r c) (allbits n)) (allbits n).
+  Proof. reflexivity. Qed.
+
+  (* fidelity shortcut for a pure argument: tr(|psi><psi| sigma) = <psi|sigma|psi> *)
+  Theorem fidelity_pure_shortcut : forall d psi sigma, length psi = d ->
+    fid_trace K d (outer K psi (vconj cj psi)) sigma = expect K cj d psi sigma.
+  Proof. intros. now apply (fid_trace_pure K cj SR cj0). Qed.
+
+  (* purity of |psi><psi| is <psi|psi>^2 *)
+  Theorem purity_of_pure_state : forall d psi, length psi = d ->
+    purity_dm K d (outer K psi (vconj cj psi)) = mul K (norm2 K cj psi) (norm2 K cj psi).
+  Proof. intros. now apply (purity_pure K cj SR cj0). Qed.
+
+  (* random_density_matrix / random_hermitian(semidefinite): G = A A^dagger is Hermitian, ... *)
+  Theorem generator_hermitian : forall d r A i j, i < d -> j < d ->
+    mget K (gram K cj d r A) i j = cj (mget K (gram K cj d r A) j i).
+  Proof. intros. now apply (gram_hermitian K cj SR cj0 cj_add cj_mul cj_cj). Qed.
+
+  (* ... x^dagger G x is a sum of squared moduli ... *)
+  Theorem generator_psd : forall d r A x,
+    quadform K cj d x (gram K cj d r A)
+    = bsum K r (fun k => let w := bsum K d (fun i => mul K (cj (vget K x i)) (mget K A i k)) in mul K w (cj w)).
+  Proof. intros. now apply (gram_psd K cj SR cj0 cj_add cj_mul cj_cj). Qed.
+
+  (* ... and its trace is the sum of the squared moduli of the entries of A *)
+  Theorem generator_trace : forall d r A,
+    trace K d (gram K cj d r A) = bsum K d (fun i => bsum K r (fun k => mul K (mget K A i k) (cj (mget K A i k)))).
+  Proof. intros. now apply gram_trace. Qed.
+End Generic.
+Print Assumptions ptrace_ok.
+Print Assumptions ptrace_statevector_ok.
+Print Assumptions ptrace_order_irrelevant.
+Print Assumptions ptranspose_ok.
+Print Assumptions fidelity_pure_shortcut.
+Print Assumptions purity_of_pure_state.
+Print Assumptions generator_hermitian.
+Print Assumptions generator_psd.
+Print Assumptions generator_trace.
+
+(* non-vacuity of the generic hypotheses: Gaussian integers *)
+Example ptrace_ok_Zi : forall n S rho, NoDup S -> (forall q, In q S -> q < n) ->
+  z_ptrace_dm n S rho = z_ptrace_spec_dm n S rho.
+Proof. intros. now apply (ptrace_ok Ziops Zi_SR). Qed.
+Example ptrace_ok_instance :
+  z_ptrace_dm 2 [1] [[(1,0);(2,0);(3,0);(4,0)];[(5,0);(6,0);(7,0);(8,0)];[(9,0);(1,1);(2,2);(3,3)];[(4,4);(5,5);(6,6);(7,7)]]%Z
+  = [[(7,0);(11,0)];[(14,5);(9,9)]]%Z.
+Proof. vm_compute. reflexivity. Qed.
+
+(* partial transpose: the index exchange is an involution, is the identity on the empty set and the
+   full transpose on all qubits *)
+Theorem ptranspose_index_involution : forall S x y, length x = length y ->
+  mixbits S (mixbits S x y) (mixbits S y x) = x /\ mixbits [] x y = x.
+Proof. intros. split; [now apply mixbits_invol|apply mixbits_nil]. Qed.
+Print Assumptions ptranspose_index_involution.
+
+(* over the Gaussian integers: x^dagger (A A^dagger) x is a non-negative real number *)
+Theorem generator_psd_gaussian_integers : forall d r A x,
+  (0 <= fst (quadform Ziops zi_conj d x (gram Ziops zi_conj d r A)))%Z
+  /\ snd (quadform Ziops zi_conj d x (gram Ziops zi_conj d r A)) = 0%Z.
+Proof. exact gram_psd_Zi. Qed.
+Print Assumptions generator_psd_gaussian_integers.
+
+(* ---- real-number statements (Reals / Coquelicot axioms) *)
+Theorem stochastic_rows_normalised : forall l, rsum l <> 0%R ->
+  rsum (map (fun x => (x / rsum l)%R) l) = 1%R.
+Proof. exact row_normalised. Qed.
+Print Assumptions stochastic_rows_normalised.
+
+Theorem hellinger_fidelity_formula : forall pq,
+  (forall x, In x pq -> (0 <= fst x)%R /\ (0 <= snd x)%R) ->
+  rsum (map fst pq) = 1%R -> rsum (map snd pq) = 1%R ->
+  hellinger_fidelity pq = (bhattacharyya pq ^ 2)%R.
+Proof. exact hellinger_fidelity_is_bhattacharyya. Qed.
+Print Assumptions hellinger_fidelity_formula.
+
+Theorem tvd_symmetric_and_zero : forall pq l,
+  tvd pq = tvd (map (fun x => (snd x, fst x)) pq) /\ tvd (map (fun x => (x, x)) l) = 0%R.
+Proof. intros. split; [apply tvd_sym|apply tvd_same]. Qed.
+Print Assumptions tvd_symmetric_and_zero.
+
+(* classical_renyi_entropy, alpha = 0: log(len p) is the Hartley entropy only on full support *)
+Theorem renyi_alpha0_partial : forall p, (forall x, In x p -> x <> 0%R) -> renyi0_branch p = hartley p.
+Proof. exact renyi_alpha0_branch_full_support. Qed.
+Print Assumptions renyi_alpha0_partial.
+Theorem renyi_alpha0_refuted :
+  exists p, rsum p = 1%R /\ (forall x, In x p -> (0 <= x <= 1)%R) /\ renyi0_branch p <> hartley p.
+Proof. exact renyi_alpha0_branch_refuted. Qed.
+Print Assumptions renyi_alpha0_refuted.
+
+(* Tsallis: d/da sum p^a at a=1 is sum p ln p, so (1 - sum p^a)/(a-1) -> -sum p ln p (nats) *)
+Theorem tsallis_limit : forall p, (forall x, In x p -> (0 < x)%R) -> is_derive (powsum p) 1%R (plnp p).
+Proof. exact tsallis_limit_derivative. Qed.
+Print Assumptions tsallis_limit.
+Theorem tsallis_alpha1_base2_refuted :
+  exists p, rsum p = 1%R /\ (forall x, In x p -> (0 < x)%R) /\ (- (plnp p) / ln 2 <> - plnp p)%R.
+Proof. exact tsallis_alpha1_branch_refuted. Qed.
+Print Assumptions tsallis_alpha1_base2_refuted.
+
+(* ---- seed handling *)
+Theorem seed_int_deterministic : forall w w' s k k',
+  fst (call w (SInt s) k) = fst (call w' (SInt s) k') /\ fst (call w (SInt s) k) = (user_stream s, 0)
+  /\ snd (call w (SInt s) k) = w.
+Proof. exact int_seed_deterministic. Qed.
+Print Assumptions seed_int_deterministic.
+
+Theorem seed_generator_advanced_not_reseeded : forall w h k1 k2, h < length (gens w) ->
+  let g := nth h (gens w) (mkgen 0 0) in
+  fst (call w (SGen h) k1) = (stream g, pos g)
+  /\ fst (call (snd (call w (SGen h) k1)) (SGen h) k2) = (stream g, pos g + k1).
+Proof.
+  intros w h k1 k2 H. split; [apply (generator_advanced w h k1 H)|now apply generator_never_reseeded].
+Qed.
+Print Assumptions seed_generator_advanced_not_reseeded.
+
+Theorem seed_history_invariant : forall cs w h,
+  stream (nth h (gens (final_world w cs)) (mkgen 0 0)) = stream (nth h (gens w) (mkgen 0 0))
+  /\ pos (nth h (gens w) (mkgen 0 0)) <= pos (nth h (gens (final_world w cs)) (mkgen 0 0)).
+Proof. exact history_invariant. Qed.
+Print Assumptions seed_history_invariant.
